@@ -4,6 +4,7 @@ package main
 // scratch files outside /repo and /verif; the loop logic is modelled in Mxj.Model.Files).
 
 import (
+	"encoding/json"
 	"bytes"
 	"encoding/xml"
 	"fmt"
@@ -115,6 +116,27 @@ func c19LoopExec(op string) string {
 	note := ""
 	if nraw != len(back) || (rawErr == nil) != (err == nil) {
 		note = "the Raw file reader disagrees with the plain one"
+	}
+	if name == "jfile" && note == "" {
+		// "the Maps read so far": every Map that comes back is the decoding of one complete, valid
+		// document of the file, in file order - nothing stands for the document that failed
+		docs := jsonDocsOf(content)
+		k := 0
+		for k < len(docs) && json.Valid([]byte(docs[k])) {
+			k++
+		}
+		switch {
+		case len(back) > k:
+			note = fmt.Sprintf("READSOFAR the file holds %d valid document(s) ahead of the first malformed one, %d Maps came back", k, len(back))
+		case err != nil && len(back) < k:
+			note = fmt.Sprintf("READSOFAR the file holds %d valid document(s) ahead of the failure, only %d Maps came back with the error", k, len(back))
+		}
+		for i := 0; i < len(back) && i < k && note == ""; i++ {
+			want, e := mxj.NewMapJson([]byte(docs[i]))
+			if e != nil || enc(map[string]interface{}(want)) != enc(map[string]interface{}(back[i])) {
+				note = fmt.Sprintf("READSOFAR Map %d read from the file is not the decoding of document %d", i, i)
+			}
+		}
 	}
 	return res + " | " + note
 }
@@ -634,7 +656,22 @@ func c19LoopGen(r *Rng) string {
 		}
 		content += r.Pick([]string{"", "\n", "  ", "\n\n", ",", "x"})
 	}
-	if r.P(25) && len(content) > 0 {
+	if r.P(12) && len(content) > 0 {
+		// one byte of one document damaged while its braces still balance (a colon, comma, digit or
+		// literal overwritten): the scanner delivers the document, the decoder rejects it - the Maps
+		// read so far come back with the error, and nothing else
+		b := []byte(content)
+		var at []int
+		for i, c := range b {
+			if c == ':' || c == ',' || (c >= '0' && c <= '9') || c == 't' || c == 'n' {
+				at = append(at, i)
+			}
+		}
+		if len(at) > 0 {
+			b[at[r.Intn(len(at))]] = r.Pick([]string{";", "x", "~", "'"})[0]
+			content = string(b)
+		}
+	} else if r.P(25) && len(content) > 0 {
 		content = content[:r.Intn(len(content))]
 	} else if r.P(10) {
 		content += r.Pick([]string{"}", "{", "{\"a\":", "null", "[1]", "\""})
@@ -706,4 +743,45 @@ func init() {
 		QuickN:    1500,
 		ThoroughN: 60000,
 	})
+}
+
+// jsonDocsOf splits a byte string into its top-level {...} texts the way a brace scanner sees them
+// (braces inside string literals do not count; what stands between documents is skipped; an
+// unclosed last document is left out).
+func jsonDocsOf(s string) []string {
+	var docs []string
+	depth, start, inStr, esc := 0, -1, false, false
+	for i := 0; i < len(s); i++ {
+		c := s[i]
+		if depth == 0 {
+			if c == '{' {
+				depth, start = 1, i
+			}
+			if c == '}' || c == '"' {
+				return docs // a stray closing brace or quote: what the scanner does from here on is its own business
+			}
+			continue
+		}
+		switch {
+		case inStr:
+			switch {
+			case esc:
+				esc = false
+			case c == '\\':
+				esc = true
+			case c == '"':
+				inStr = false
+			}
+		case c == '"':
+			inStr = true
+		case c == '{':
+			depth++
+		case c == '}':
+			depth--
+			if depth == 0 {
+				docs = append(docs, s[start:i+1])
+			}
+		}
+	}
+	return docs
 }
